@@ -73,7 +73,8 @@ results = {}
 try:
     for p in props:
         t = time.time()
-        rc, out = sh("./check %s --tier quick" % p, cwd="/verif", env=dict(os.environ, MOCLO_REPO=scratch))
+        rc, out = sh("./check %s --tier quick" % p, cwd=os.environ.get("SEEDEVAL_VERIF", "/verif"),
+                     env=dict(os.environ, MOCLO_REPO=scratch))
         lines = [l for l in out.split("\n") if l.startswith("VIOLATION") or l.startswith("KNOWN") or l.startswith(p)]
         results[p] = {"exit": rc, "lines": lines[:6], "wall_s": round(time.time() - t, 1)}
         print(p, "exit", rc, "|", " || ".join(lines[:4])[:600])
